@@ -2,6 +2,30 @@
 SOURCE_COMMITS = []
 NOT_APPLICABLE = {}
 CHECKS = {
+ "C04": {
+  "text": "PkgMemo.tla (memo tables with touched-key stacks and the by-result-id table, YAML cache, package pickle and tree "
+          "database, under file edits, -D overrides and repeated invocations) is model-checked exhaustively within small bounds for "
+          "MemoSound and DiskSound; counterexamples of ten weakened mechanisms and simulated histories are replayed on generated "
+          "real projects, every query answered warm (fresh process, same process, after pickle removal), cold, cold with pkgck "
+          "and with both in-memory tables disabled; all full API dumps must be equal. Bounded model checking plus conformance, "
+          "not a proof.",
+  "design_ref": "DESIGN.md section 4, C04",
+  "note": "the dump walker and probes in checks/c04_runner.py; one generated project family; stat data changes on every edit; the no-reuse oracle monkeypatches PackageMatcher.matches and __corePackagesById; plugins/layers/aliases not generated",
+  "technique": "TLA+ spec + TLC exhaustive check; TLC-generated edit/invocation histories replayed into real Bob with a cache-free recomputation as independent oracle",
+ },
+ "C06": {
+  "text": "JobSem.tla (JobServerSemaphore incl. asyncio.Semaphore, fifo, child make processes; K<=4 tasks x 2 rounds, N<=3 tokens) "
+          "is model-checked exhaustively for Bounded/Conservation/NoDuplication/quiescence and, under weak fairness, for "
+          "NoLostWakeup/WaiterServed/Termination; BobSched.tla (P layer of the scheduler over 6 DAGs <=4 packages, jobs 1..3, "
+          "keep-going on/off, <=2 failures) for NoDoubleExec/DepsFirst/Bounded/schedule independence. TLC behaviours are replayed "
+          "step by step into the real JobServerSemaphore on a real fifo under a virtual loop; real `bob dev -j N [-k]` runs with "
+          "driver-controlled completion order are validated against TraceBobSched by TLC, with the step scripts' own running/ "
+          "logs as recorder-independent witness and a -j1 build as content oracle. Bounded model checking plus conformance, not a proof.",
+  "design_ref": "DESIGN.md section 4, C06",
+  "note": "transcription of JobServerSemaphore and asyncio.Semaphore (CPython 3.12) checked step by step with drift 0; /proc-based quiescence detection; only the observable P layer of the scheduler is specified, not the builder recursion; cancellation/SIGINT, Windows path and real GNU make children not exercised",
+  "technique": "explicit-state model checking (TLC, safety + liveness) + model-based replay into JobServerSemaphore (spec->code) + TLC trace validation of real parallel builds (code->spec)",
+ },
+
  "C01": {
   "text": "BobBuild.tla (develop-mode builder over two packages: import SCM and deterministic checkoutScript sources, build and "
           "package steps, edits of script text, variable value, consumed-variable list, dependency add/remove, provided variable, "
